@@ -25,7 +25,10 @@ def expected_obj(exp, by_dt="<i8"):
         return np.array(edges, dtype=float)
     labs = [unnum(x) for x in exp["labels"]]
     how = exp.get("as", "array")
-    if by_dt == "U":
+    if exp.get("cast") == "int":
+        # requested labels given as integers although the label array is float (NaN = missing): realistic mismatch
+        arr = np.array([int(x) for x in labs], dtype=np.int64)
+    elif by_dt == "U":
         arr = np.array(labs, dtype=str)
     elif "f" in by_dt:
         arr = np.array(labs, dtype=np.float64)
